@@ -95,8 +95,12 @@ def analyse(sess, outs, strict_lockstep=False):
     # reference bag memory (C17)
     ref_mem = None
 
+    last_dstate = None
     for i, (op, o) in enumerate(zip(sess.ops, outs)):
         kind = op.get("op")
+        dstate_before = last_dstate          # receiver state as printed after the previous operation that showed one
+        if o.state.startswith("D "):
+            last_dstate = o.state
         if o.raw == "<missing>":
             F(i, ["*"], "no output line (driver died?)")
             break
@@ -498,7 +502,15 @@ def analyse(sess, outs, strict_lockstep=False):
                 rx_last = "?"
             check_conservation(i, o, created, owned, held, lost_by_contract, F)
             if o.state.startswith("D "):
-                sess._prev_mem = parse_mem_state(o.state)
+                now = parse_mem_state(o.state)
+                before = parse_mem_state(dstate_before) if dstate_before else None
+                # C08, second sentence: a decap call that ends in an error returns any buffer it took — the free list
+                # never shrinks on an error (a storage handed out inside the error value is accounted for by identity)
+                if kind == "decap" and o.err and before is not None and before.get("n") == now.get("n") \
+                        and len(now["free"]) < len(before["free"]) and ":" not in o.toks[1]:
+                    F(i, ["C08"], "decap ended in %s but kept a storage it took: free list %d -> %d storages"
+                      % (o.toks[1], len(before["free"]), len(now["free"])))
+                sess._prev_mem = now
             if kind == "decap":
                 sync_trains(i, o, trains, F)
             if ref_mem is not None:
@@ -846,7 +858,7 @@ def decap_oracle(i, op, so, o, fed, mand, rx_last, trains, info, strict, sess, F
                 if meta[2] != t.resolved or int(meta[1], 16) != t.pt:
                     F(i, ["C02", "C04", "C07"], "fragment status carries %s/%s, first fragment had %s/%04x" % (meta[2], meta[1], t.resolved, t.pt))
                 if ",".join(meta[3:]) != ext_tok(t.exts):
-                    F(i, ["C13", "C03"], "fragment status carries extensions %s, first fragment had %s" % (",".join(meta[3:]), ext_tok(t.exts)))
+                    F(i, ["C13", "C03", "C07"], "fragment status carries extensions %s, first fragment had %s" % (",".join(meta[3:]), ext_tok(t.exts)))
                 if pk.kind == "E":
                     P = bytes(t.payload)
                     lb = t.label.data if t.lt in "63" else b""
@@ -860,7 +872,7 @@ def decap_oracle(i, op, so, o, fed, mand, rx_last, trains, info, strict, sess, F
                         if so.kv["pdu"] != digest(P) or int(meta[0]) != len(P):
                             F(i, ["C03", "C02"], "delivered bytes %s differ from the concatenated payloads %s" % (so.kv["pdu"], digest(P)))
                         if ",".join(meta[3:]) != ext_tok(t.exts):
-                            F(i, ["C13", "C03"], "extensions reported %s, first fragment carried %s" % (",".join(meta[3:]), ext_tok(t.exts)))
+                            F(i, ["C13", "C03", "C07"], "extensions reported %s, first fragment carried %s" % (",".join(meta[3:]), ext_tok(t.exts)))
                     trains.pop(pk.frag_id, None)
                 elif so.toks[1] != "F":
                     F(i, ["C02"], "intermediate fragment answered with status %s" % so.toks[1])
